@@ -108,21 +108,52 @@ def store_root_is_fresh(fn, ins):
         if d.op == 'call':
             return (d.callee_name() or '') in FRESH_CALLS
         if d.op == 'phi':
-            # all incoming values fresh (ignoring self references)
-            outs = [x for x in d.ops if not (x.kind == 'reg' and x.name == v.name)]
-            if not outs:
-                return False
-            for x in outs:
-                if x.kind != 'reg':
+            # all incoming values fresh (ignoring references back to the phi itself, also through
+            # pointer arithmetic: a cursor walking over the function's own buffer)
+            phi_name = v.name
+            any_fresh = False
+            for x in d.ops:
+                y = x
+                ok = False
+                for _ in range(12):
+                    if y.kind != 'reg':
+                        break
+                    if y.name == phi_name:
+                        ok = True
+                        break
+                    dd = fn.defs.get(y.name)
+                    if dd is None:
+                        break
+                    if dd.op in ('bitcast', 'getelementptr'):
+                        y = dd.ops[0]
+                        continue
+                    if dd.op == 'call' and (dd.callee_name() or '') in FRESH_CALLS:
+                        ok = True
+                        any_fresh = True
+                    if dd.op == 'phi' and dd is not d:
+                        # nested merge of the same cursor
+                        ok = all((z.kind == 'reg' and (z.name == phi_name or _fresh_chain(fn, z, phi_name))) for z in dd.ops)
+                    break
+                if not ok:
                     return False
-                dd = fn.defs.get(x.name)
-                while dd is not None and dd.op in ('bitcast', 'getelementptr'):
-                    y = dd.ops[0]
-                    dd = fn.defs.get(y.name) if y.kind == 'reg' else None
-                if dd is None or dd.op != 'call' or (dd.callee_name() or '') not in FRESH_CALLS:
-                    return False
-            return True
+            return any_fresh
         return False
+    return False
+
+
+def _fresh_chain(fn, z, phi_name):
+    for _ in range(12):
+        if z.kind != 'reg':
+            return False
+        if z.name == phi_name:
+            return True
+        dd = fn.defs.get(z.name)
+        if dd is None:
+            return False
+        if dd.op in ('bitcast', 'getelementptr'):
+            z = dd.ops[0]
+            continue
+        return dd.op == 'call' and (dd.callee_name() or '') in FRESH_CALLS
     return False
 
 
